@@ -263,6 +263,12 @@ func main() {
 			}
 		}
 	}
+	// the constraint directly above the package clause or its doc comment (no blank line in between)
+	for _, e := range exprs(1) {
+		check("go:build/no-gap", "//go:build "+e+"\n")
+		check("go:build/doc-attached", "//go:build "+e+"\n// Package p is documented right below its constraint.\n")
+		check("go:build/license+doc-attached", "// Copyright\n\n//go:build "+e+"\n// Package p is documented right below its constraint.\n")
+	}
 	// both syntaxes, as gofmt keeps them
 	for _, e := range exprs(1) {
 		x, err := constraint.Parse("//go:build " + e)
